@@ -3,11 +3,10 @@
 set -u
 cd "$(dirname "$0")"
 export GOFLAGS=-mod=mod GOPROXY=off GOSUMDB=off GOTOOLCHAIN=local
-echo "[setup] building fact extractor"
-(cd extract && go build -o extract .) || exit 1
-echo "[setup] regenerating facts from /repo"
+echo "[setup] regenerating facts from /repo (extractor built per property: main.go + c<nn>*.go)"
 for id in $(python3 -c "import json;print(' '.join(c['property_id'] for c in json.load(open('MANIFEST.json'))['checks']))"); do
-  VERIF_ROOT=$PWD ./extract/extract "$id" /repo || echo "[setup] extractor failed for $id (the check will report it)"
+  lid=$(echo "$id" | tr 'A-Z' 'a-z')
+  (cd extract && go build -o "extract_$id" main.go ${lid}*.go && VERIF_ROOT=$OLDPWD ./extract_$id "$id" /repo; rm -f "extract_$id") || echo "[setup] extractor failed for $id (the check will report it)"
 done
 echo "[setup] building Lean project"
 (cd lean && lake build 2>&1 | grep -v '^✔' | tail -20)
